@@ -273,7 +273,10 @@ def parameter(kind):
                 if kind != "switch" or doset:
                     # Normal parameters just update dependencies
                     for pr in getattr(self, recalc_papr)[name]:
-                        getattr(self, recalc)[pr] = True
+                        # Quantities whose index has been deleted (by a switch) will be
+                        # fully re-indexed on their next access anyway.
+                        if pr in getattr(self, recalc):
+                            getattr(self, recalc)[pr] = True
                 else:
                     # Switches mean that dependencies could depend on new parameters,
                     # so need to re-index
